@@ -46,7 +46,7 @@ const (
 // genesis builds the trust root of a chain of router m.rt at the given height.
 func genesis(m *model, height uint64) (*mnode, []byte) {
 	rt := m.rt
-	v0 := listCodes["A"]
+	v0 := m.gprev
 	set := v0
 	if rt.Family == posa.Clique || rt.Family == posa.Bor {
 		set = m.sortedByAddr(v0)
@@ -160,7 +160,7 @@ func main() {
 		}
 		g, graw := genesis(m, gh)
 		d := r.QT(depths[rt.Name][0], depths[rt.Name][1])
-		st := explore(r, env, m, sims, base, chainOf[rt.Name], g, graw, d, workers)
+		st := explore(r, env, m, sims, base, chainOf[rt.Name], g, graw, d, workers, nil)
 		totalStates += st.States
 		totalTrans += st.Transitions
 		if st.MaxDepth > maxDepth {
